@@ -139,6 +139,8 @@ func Layer(r *ev.Run) {
 	r.RequireAtLeast("mysql_masked_fields_checked:text", 40)
 	r.RequireAtLeast("mysql_masked_fields_checked:binary", 40)
 	r.RequireAtLeast("mysql_masking_sessions_owner_differential_ok", 4)
+	// masked columns inside longer session histories and next to other protected columns (history.go)
+	historyLayer(r)
 }
 
 func session(r *ev.Run, rng *gen.Rand, sidx int, class string) {
